@@ -37,12 +37,30 @@ func runC15(r *Report) {
 	for _, e := range esc {
 		r.Fail("R1", "tryLock-escapes", e.Pos(), "tryLock is used as a function value")
 	}
+	// releasers: unlock, and private wrappers of package tracker that call it on every path (release())
+	releasers := map[*ssa.Function]bool{unlock: true}
+	for _, f := range p.SrcFuncs() {
+		if relPkg(f) != "tracker" || f.Parent() != nil || f == unlock || f.Blocks == nil {
+			continue
+		}
+		callsUnlock := func(in ssa.Instruction) bool {
+			c, ok := in.(*ssa.Call)
+			return ok && c.Call.StaticCallee() == unlock
+		}
+		if anyInstr(f, callsUnlock) == nil || f.Signature.Results().Len() != 0 {
+			continue
+		}
+		isRet := func(in ssa.Instruction) bool { _, ok := in.(*ssa.Return); return ok }
+		if _, reached := pathsMissingAt(f.Blocks[0], 0, -1, isRet, callsUnlock, nil, nil); reached == 0 {
+			releasers[f] = true
+		}
+	}
 	isRelease := func(in ssa.Instruction) bool {
 		switch x := in.(type) {
 		case *ssa.Defer:
-			return x.Call.StaticCallee() == unlock
+			return releasers[x.Call.StaticCallee()]
 		case *ssa.Call:
-			return x.Call.StaticCallee() == unlock
+			return releasers[x.Call.StaticCallee()]
 		}
 		return false
 	}
